@@ -7,12 +7,23 @@ result, engine-call trace and object-graph snapshot after EVERY op) and all
 oracles live in harness/vnetcase.py.  This check owns the oracle
 "deep snapshot unchanged, locks free, documented class, program still matches the reference";
 failures of the other L2 oracles (owned by C01/C02/C05/C06/C07) are listed as
-notes in the evidence."""
+notes in the evidence.
+
+Extra stage (harness/vnetx_cases.py, shared with C02): refusals of the
+client-visible operations the base programs do not contain -- new_qubit_inreg
+(register full while the node has room, node full, register no longer in the
+table), the NetQASM send wrappers (full receiver, unknown node / number),
+register limits.  Of that stage's oracles this check owns `xatomic` (an op
+that returns an error leaves object graph, generator matrices and queues
+unchanged, locks free) and `xrefuse` (refusal and error class predicted from
+plain counters); the rest are notes (C02 owns them)."""
+from .. import core
 from .. import vnetcase
+from .. import vnetx_cases
 
 LEAN_TARGETS = ["SqVerif.Props.C05"]
 PROPS_FILE = "SqVerif/Props/C05.lean"
-DRIVE_TARGETS = ["SqVerif.Drive.VNet"]
+DRIVE_TARGETS = ["SqVerif.Drive.VNet", "SqVerif.Drive.VNetX"]
 TRUSTED = [
     "model VNet.lean hand-written from virtual.py / quantum.py (after the repairs F1 F2 F3); tied by differential execution "
     "after every op: result, engine-call trace, object-graph snapshot (this check)",
@@ -21,6 +32,8 @@ TRUSTED = [
     "copy from outside",
     "NumPy state-vector reference (complex128, tolerance 1e-8) and the conventions qubit 0 = leftmost factor, "
     "K = [[1,-i],[i,-1]]/sqrt2 (validated against the stabilizer code by C13/C14)",
+    "extended stage: model VNetX.lean (theorems in Props/C02X.lean, audited by C02) tied after every op through the driver "
+    "`vnetx`; the refusal / atomicity oracle itself is independent of the model",
 ]
 ASSUMPTIONS = [
     "operations are issued one after the other, each to completion (interleavings are C03/C04)",
@@ -30,7 +43,14 @@ ASSUMPTIONS = [
 
 
 def run(ctx):
-    return vnetcase.run_check(ctx, "C05")
+    rp = getattr(ctx, "replay", None)
+    if rp and vnetx_cases.is_x(rp):
+        core.scratch_repo()
+        return vnetx_cases.stage(ctx, core.Result(), prop="C05")
+    res = vnetcase.run_check(ctx, "C05")
+    if not rp:
+        vnetx_cases.stage(ctx, res, prop="C05", n_gen=ctx.scale(40, 2000))
+    return res
 
 
 def search(ctx, res, broken):
